@@ -94,6 +94,15 @@ Proof.
   apply fresh_result; auto. rewrite rscal_length. rewrite <- (cl_length (F dx)). apply (W1 _ _ _ Er).
 Qed.
 
+(* rewrite with a call equation up to conversion of the store's type *)
+Ltac rw_call H :=
+  match type of H with
+  | o_call ?K ?a ?b ?c = ?rhs =>
+      match goal with
+      | |- context [o_call K a ?b' ?c'] => replace (o_call K a b' c') with rhs by (symmetry; exact H)
+      end
+  end.
+
 (* ---- small helpers for frames ---- *)
 Ltac notin :=
   let H := fresh in intros H; cbn in H;
@@ -204,5 +213,347 @@ Proof.
     eapply ext_trans_fresh; [apply ext_nil_any; exact E01 | exact E2 | unfold t; lia].
   - rewrite radd_length; [eapply wf_len; eauto|].
     rewrite (wf_len _ _ _ _ W3 Et3), (wf_len _ _ _ _ W3 Er2). reflexivity.
+Qed.
+
+(* ---------------- OperatorVectorSum ---------------- *)
+Definition inst_vec1 (dom ran : space) (v : nat) (K : opsemR) : instR :=
+  {| i_dom := dom; i_ran := RSp ran; i_pars := []; i_vecs := [v]; i_owns := []; i_kids := [K] |}.
+
+Lemma vecsum_oop (K : opsemR) dom ran ro F v dv :
+  o_dom K = dom -> vec_ok K ran ro F -> In (v, ran, dv) ro ->
+  raw_oop_vec (fun x => exec_body junk (inst_vec1 dom ran v K) (c_oop cls_OperatorVectorSum) x None)
+    dom ran ro (fun d => radd (F d) dv).
+Proof.
+  intros Hd (_ & Hoop & _) Iv s x dx W G Ex.
+  unfold cls_OperatorVectorSum, inst_vec1. interp.
+  rewrite <- Hd in Ex.
+  destruct (Hoop s x dx W G Ex) as (r & s1 & Hc & Er & E1 & W1 & Hrx).
+  rewrite Hc.
+  destruct (keep_nil _ _ _ _ _ E1 G Ex) as (G1 & _).
+  pose proof (G1 _ _ _ Iv) as Ev.
+  rewrite (new_add_clean _ _ _ _ _ _ W1 Er Ev).
+  eexists _, _. split; [reflexivity|].
+  apply fresh_result; auto.
+  rewrite radd_length; [eapply wf_len; eauto|].
+  rewrite (wf_len _ _ _ _ W1 Er), (wf_len _ _ _ _ W1 Ev). reflexivity.
+Qed.
+
+Lemma vecsum_ip (K : opsemR) dom ran ro F v dv :
+  o_dom K = dom -> vec_ok K ran ro F -> In (v, ran, dv) ro ->
+  raw_ip_vec (fun x o => exec_body junk (inst_vec1 dom ran v K) (c_ip cls_OperatorVectorSum) x (Some o))
+    dom ran ro (fun d => radd (F d) dv).
+Proof.
+  intros Hd (_ & _ & Hip) Iv s x y dx dy W G Ex Ey Nxy Ny.
+  unfold cls_OperatorVectorSum, inst_vec1. interp.
+  rewrite <- Hd in Ex.
+  destruct (Hip s x y dx dy W G Ex Ey Nxy Ny) as (s1 & Hc & Er & E1 & W1).
+  rewrite Hc.
+  assert (G1 : good ro s1) by (eapply good_ext; [exact G | exact E1 | intros i [<-|[]]; exact Ny]).
+  pose proof (G1 _ _ _ Iv) as Ev.
+  rewrite (do_iadd_clean _ _ _ _ _ _ W1 Er Ev).
+  eexists _, _. split; [reflexivity|]. split; [right; reflexivity|].
+  eapply ip_finish; eauto.
+  rewrite radd_length; [eapply wf_len; eauto|].
+  rewrite (wf_len _ _ _ _ W1 Er), (wf_len _ _ _ _ W1 Ev). reflexivity.
+Qed.
+
+(* ---------------- OperatorComp ---------------- *)
+Definition inst_comp (dom ran : space) (Kl Kr : opsemR) : instR :=
+  {| i_dom := dom; i_ran := RSp ran; i_pars := []; i_vecs := []; i_owns := [None]; i_kids := [Kl; Kr] |}.
+
+Lemma comp_oop (Kl Kr : opsemR) dom mid ran ro Fl Fr :
+  o_dom Kl = mid -> o_dom Kr = dom -> vec_ok Kl ran ro Fl -> vec_ok Kr mid ro Fr ->
+  raw_oop_vec (fun x => exec_body junk (inst_comp dom ran Kl Kr) (c_oop cls_OperatorComp) x None)
+    dom ran ro (fun d => Fl (Fr d)).
+Proof.
+  intros Hdl Hdr (_ & Hol & _) (_ & Hor & _) s x dx W G Ex.
+  unfold cls_OperatorComp, inst_comp. interp.
+  rewrite <- Hdr in Ex.
+  destruct (Hor s x dx W G Ex) as (r1 & s1 & Hc1 & Er1 & E1 & W1 & Hr1).
+  rewrite Hc1.
+  destruct (keep_nil _ _ _ _ _ E1 G Ex) as (G1 & _).
+  rewrite <- Hdl in Er1.
+  destruct (Hol s1 r1 (Fr dx) W1 G1 Er1) as (r2 & s2 & Hc2 & Er2 & E2 & W2 & Hr2).
+  rewrite Hc2.
+  eexists _, _. split; [reflexivity|]. splits; auto.
+  - eapply ext_trans_same; eassumption.
+  - left. exists r2. splits; auto.
+    pose proof (ext_len _ _ _ E1). destruct Hr2 as [->|Hr2]; [exact Hr1 | right; lia].
+Qed.
+
+Lemma comp_ip (Kl Kr : opsemR) dom mid ran ro Fl Fr :
+  o_dom Kl = mid -> o_dom Kr = dom -> vec_ok Kl ran ro Fl -> vec_ok Kr mid ro Fr ->
+  raw_ip_vec (fun x o => exec_body junk (inst_comp dom ran Kl Kr) (c_ip cls_OperatorComp) x (Some o))
+    dom ran ro (fun d => Fl (Fr d)).
+Proof.
+  intros Hdl Hdr (_ & _ & Hil) (Hrr & _ & Hir) s x y dx dy W G Ex Ey Nxy Ny.
+  unfold cls_OperatorComp, inst_comp. interp. rewrite Hrr.
+  rewrite alloc_empty_eq. set (t := length s). set (s1 := s ++ [(mid, junkbuf junk t (fst mid))]).
+  assert (Lx : (x < t)%nat) by (eapply rd_lt; exact Ex).
+  assert (Ly : (y < t)%nat) by (eapply rd_lt; exact Ey).
+  assert (W1 : wf_store s1) by (apply wf_alloc; [exact W | apply junkbuf_length]).
+  assert (E01 : ext s s1 []) by apply ext_alloc.
+  destruct (keep_nil _ _ _ _ _ E01 G Ex) as (G1 & Ex1).
+  assert (Ey1 : rd s1 y = Some (ran, dy)) by (eapply ext_rd; [exact E01 | exact Ey | intros []]).
+  assert (Et1 : rd s1 t = Some (mid, junkbuf junk t (fst mid))) by apply rd_app_new.
+  assert (Nt : ~ In t (ro_ids ro)) by (intros I; apply (good_lt _ _ _ G) in I; unfold t in I; lia).
+  rewrite <- Hdr in Ex1.
+  destruct (Hir s1 x t dx _ W1 G1 Ex1 Et1 ltac:(lia) Nt) as (s2 & Hc1 & Er1 & E2 & W2).
+  rewrite Hc1.
+  assert (G2 : good ro s2) by (eapply good_ext; [exact G1 | exact E2 | intros i [<-|[]]; exact Nt]).
+  assert (Ey2 : rd s2 y = Some (ran, dy)) by (eapply ext_rd; [exact E2 | exact Ey1 | notin]).
+  rewrite <- Hdl in Er1.
+  destruct (Hil s2 t y (Fr dx) dy W2 G2 Er1 Ey2 ltac:(lia) Ny) as (s3 & Hc2 & Er2 & E3 & W3).
+  rewrite Hc2.
+  eexists _, _. split; [reflexivity|]. split; [right; reflexivity|]. splits; auto.
+  eapply ext_trans_same; [|exact E3].
+  eapply ext_trans_fresh; [apply ext_nil_any; exact E01 | exact E2 | unfold t; lia].
+Qed.
+
+(* ---------------- OperatorPointwiseProduct ---------------- *)
+Definition inst_pprod (dom ran : space) (Kl Kr : opsemR) : instR :=
+  {| i_dom := dom; i_ran := RSp ran; i_pars := []; i_vecs := []; i_owns := []; i_kids := [Kl; Kr] |}.
+
+Lemma pprod_oop (Kl Kr : opsemR) dom ran ro Fl Fr :
+  o_dom Kl = dom -> o_dom Kr = dom -> vec_ok Kl ran ro Fl -> vec_ok Kr ran ro Fr ->
+  raw_oop_vec (fun x => exec_body junk (inst_pprod dom ran Kl Kr) (c_oop cls_OperatorPointwiseProduct) x None)
+    dom ran ro (fun d => rmul (Fl d) (Fr d)).
+Proof.
+  intros Hdl Hdr (_ & Hol & _) (_ & Hor & _) s x dx W G Ex.
+  unfold cls_OperatorPointwiseProduct, inst_pprod. interp.
+  assert (Exl : rd s x = Some (o_dom Kl, cl dx)) by (rewrite Hdl; exact Ex).
+  destruct (Hol s x dx W G Exl) as (rl & s1 & Hc1 & Er1 & E1 & W1 & Hrl).
+  rewrite Hc1.
+  destruct (keep_nil _ _ _ _ _ E1 G Ex) as (G1 & Ex1). rewrite <- Hdr in Ex1.
+  destruct (Hor s1 x dx W1 G1 Ex1) as (rr & s2 & Hc2 & Er2 & E2 & W2 & Hrr).
+  rewrite Hc2.
+  assert (Er1' : rd s2 rl = Some (ran, cl (Fl dx))) by (eapply ext_rd; [exact E2 | exact Er1 | intros []]).
+  rewrite (new_mul_clean _ _ _ _ _ _ Er1' Er2).
+  eexists _, _. split; [reflexivity|]. rewrite rmul_comm.
+  apply fresh_result; auto.
+  - eapply ext_trans_same; eassumption.
+  - rewrite rmul_length; [eapply wf_len; eauto|].
+    rewrite (wf_len _ _ _ _ W2 Er1'), (wf_len _ _ _ _ W2 Er2). reflexivity.
+Qed.
+
+Lemma pprod_ip (Kl Kr : opsemR) dom ran ro Fl Fr :
+  o_dom Kl = dom -> o_dom Kr = dom -> vec_ok Kl ran ro Fl -> vec_ok Kr ran ro Fr ->
+  raw_ip_vec (fun x o => exec_body junk (inst_pprod dom ran Kl Kr) (c_ip cls_OperatorPointwiseProduct) x (Some o))
+    dom ran ro (fun d => rmul (Fl d) (Fr d)).
+Proof.
+  intros Hdl Hdr (_ & _ & Hil) (Hrr & _ & Hir) s x y dx dy W G Ex Ey Nxy Ny.
+  unfold cls_OperatorPointwiseProduct, inst_pprod. interp. rewrite Hrr.
+  rewrite alloc_empty_eq. set (t := length s). set (s1 := s ++ [(ran, junkbuf junk t (fst ran))]).
+  assert (Lx : (x < t)%nat) by (eapply rd_lt; exact Ex).
+  assert (Ly : (y < t)%nat) by (eapply rd_lt; exact Ey).
+  assert (W1 : wf_store s1) by (apply wf_alloc; [exact W | apply junkbuf_length]).
+  assert (E01 : ext s s1 []) by apply ext_alloc.
+  destruct (keep_nil _ _ _ _ _ E01 G Ex) as (G1 & Ex1).
+  assert (Ey1 : rd s1 y = Some (ran, dy)) by (eapply ext_rd; [exact E01 | exact Ey | intros []]).
+  assert (Et1 : rd s1 t = Some (ran, junkbuf junk t (fst ran))) by apply rd_app_new.
+  assert (Nt : ~ In t (ro_ids ro)) by (intros I; apply (good_lt _ _ _ G) in I; unfold t in I; lia).
+  rewrite <- Hdl in Ex1.
+  destruct (Hil s1 x t dx _ W1 G1 Ex1 Et1 ltac:(lia) Nt) as (s2 & Hc1 & Er1 & E2 & W2).
+  rewrite Hc1.
+  assert (G2 : good ro s2) by (eapply good_ext; [exact G1 | exact E2 | intros i [<-|[]]; exact Nt]).
+  assert (Ex2 : rd s2 x = Some (o_dom Kr, cl dx)).
+  { rewrite Hdr, <- Hdl. eapply ext_rd; [exact E2 | exact Ex1 | notin]. }
+  assert (Ey2 : rd s2 y = Some (ran, dy)) by (eapply ext_rd; [exact E2 | exact Ey1 | notin]).
+  destruct (Hir s2 x y dx dy W2 G2 Ex2 Ey2 Nxy Ny) as (s3 & Hc2 & Er2 & E3 & W3).
+  rewrite Hc2.
+  assert (Et3 : rd s3 t = Some (ran, cl (Fl dx))) by (eapply ext_rd; [exact E3 | exact Er1 | notin]).
+  rewrite (do_multiply_clean _ _ _ _ _ _ _ _ Et3 Er2 Er2).
+  eexists _, _. split; [reflexivity|]. split; [left; reflexivity|].
+  eapply ip_finish; [| exact W3 | exact Er2 |].
+  - eapply ext_trans_same; [|exact E3].
+    eapply ext_trans_fresh; [apply ext_nil_any; exact E01 | exact E2 | unfold t; lia].
+  - rewrite rmul_length; [eapply wf_len; eauto|].
+    rewrite (wf_len _ _ _ _ W3 Et3), (wf_len _ _ _ _ W3 Er2). reflexivity.
+Qed.
+
+(* ---------------- OperatorRightScalarMult ---------------- *)
+Definition inst_rscal (dom ran : space) (a : R) (K : opsemR) : instR :=
+  {| i_dom := dom; i_ran := RSp ran; i_pars := [Some a]; i_vecs := []; i_owns := [None]; i_kids := [K] |}.
+
+Lemma rscal_oop (K : opsemR) dom ran ro F a :
+  o_dom K = dom -> vec_ok K ran ro F ->
+  raw_oop_vec (fun x => exec_body junk (inst_rscal dom ran a K) (c_oop cls_OperatorRightScalarMult) x None)
+    dom ran ro (fun d => F (rscal a d)).
+Proof.
+  intros Hd (_ & Hoop & _) s x dx W G Ex.
+  unfold cls_OperatorRightScalarMult, inst_rscal. interp.
+  rewrite (new_scaled_clean _ _ _ _ _ W Ex).
+  set (t := length s). set (s1 := s ++ [(dom, cl (rscal a dx))]).
+  assert (W1 : wf_store s1).
+  { apply wf_alloc; [exact W | rewrite cl_length, rscal_length; eapply wf_len; eauto]. }
+  assert (E01 : ext s s1 []) by apply ext_alloc.
+  destruct (keep_nil _ _ _ _ _ E01 G Ex) as (G1 & _).
+  assert (Et1 : rd s1 t = Some (o_dom K, cl (rscal a dx))) by (rewrite Hd; apply rd_app_new).
+  destruct (Hoop s1 t _ W1 G1 Et1) as (r & s2 & Hc & Er & E2 & W2 & Hr).
+  rewrite Hc.
+  eexists _, _. split; [reflexivity|]. splits; auto.
+  - eapply ext_trans_same; eassumption.
+  - left. exists r. splits; auto. right.
+    pose proof (ext_len _ _ _ E01). destruct Hr as [->|Hr]; unfold t; lia.
+Qed.
+
+Lemma rscal_ip (K : opsemR) dom ran ro F a :
+  o_dom K = dom -> vec_ok K ran ro F ->
+  raw_ip_vec (fun x o => exec_body junk (inst_rscal dom ran a K) (c_ip cls_OperatorRightScalarMult) x (Some o))
+    dom ran ro (fun d => F (rscal a d)).
+Proof.
+  intros Hd (_ & _ & Hip) s x y dx dy W G Ex Ey Nxy Ny.
+  unfold cls_OperatorRightScalarMult, inst_rscal. interp.
+  rewrite alloc_empty_eq. set (t := length s). set (s0 := s ++ [(dom, junkbuf junk t (fst dom))]).
+  assert (Lx : (x < t)%nat) by (eapply rd_lt; exact Ex).
+  assert (Ly : (y < t)%nat) by (eapply rd_lt; exact Ey).
+  assert (W0 : wf_store s0) by (apply wf_alloc; [exact W | apply junkbuf_length]).
+  assert (Ex0 : rd s0 x = Some (dom, cl dx)) by (unfold s0; rewrite rd_app_old; assumption).
+  rewrite (do_lincomb1_clean _ _ _ _ _ _ _ W0 Ex0 (rd_app_new _ _)).
+  unfold s0, t. rewrite upd_app_last. fold t. set (s1 := s ++ [(dom, cl (rscal a dx))]).
+  assert (W1 : wf_store s1).
+  { apply wf_alloc; [exact W | rewrite cl_length, rscal_length; eapply wf_len; eauto]. }
+  assert (E01 : ext s s1 []) by apply ext_alloc.
+  destruct (keep_nil _ _ _ _ _ E01 G Ex) as (G1 & _).
+  assert (Ey1 : rd s1 y = Some (ran, dy)) by (eapply ext_rd; [exact E01 | exact Ey | intros []]).
+  assert (Et1 : rd s1 t = Some (o_dom K, cl (rscal a dx))) by (rewrite Hd; apply rd_app_new).
+  destruct (Hip s1 t y _ dy W1 G1 Et1 Ey1 ltac:(lia) Ny) as (s2 & Hc & Er & E2 & W2).
+  rw_call Hc.
+  eexists _, _. split; [reflexivity|]. split; [left; reflexivity|]. splits; auto.
+  eapply ext_trans_same; [apply ext_nil_any; exact E01 | exact E2].
+Qed.
+
+(* ---------------- FunctionalLeftVectorMult ---------------- *)
+Lemma flvec_oop (K : opsemR) dom ran ro f v dv :
+  o_dom K = dom -> sc_ok K ro f -> In (v, ran, dv) ro ->
+  raw_oop_vec (fun x => exec_body junk (inst_vec1 dom ran v K) (c_oop cls_FunctionalLeftVectorMult) x None)
+    dom ran ro (fun d => rscal (f d) dv).
+Proof.
+  intros Hd (_ & Hsc) Iv s x dx W G Ex.
+  unfold cls_FunctionalLeftVectorMult, inst_vec1. interp.
+  rewrite <- Hd in Ex.
+  destruct (Hsc s x dx W G Ex) as (s1 & Hc & E1 & W1).
+  rewrite Hc.
+  destruct (keep_nil _ _ _ _ _ E1 G Ex) as (G1 & _).
+  pose proof (G1 _ _ _ Iv) as Ev.
+  rewrite (new_scaled_clean _ _ _ _ _ W1 Ev).
+  eexists _, _. split; [reflexivity|].
+  apply fresh_result; auto. rewrite rscal_length. eapply wf_len; eauto.
+Qed.
+
+Lemma flvec_ip (K : opsemR) dom ran ro f v dv :
+  o_dom K = dom -> sc_ok K ro f -> In (v, ran, dv) ro ->
+  raw_ip_vec (fun x o => exec_body junk (inst_vec1 dom ran v K) (c_ip cls_FunctionalLeftVectorMult) x (Some o))
+    dom ran ro (fun d => rscal (f d) dv).
+Proof.
+  intros Hd (_ & Hsc) Iv s x y dx dy W G Ex Ey Nxy Ny.
+  unfold cls_FunctionalLeftVectorMult, inst_vec1. interp.
+  rewrite <- Hd in Ex.
+  destruct (Hsc s x dx W G Ex) as (s1 & Hc & E1 & W1).
+  rewrite Hc.
+  destruct (keep_nil _ _ _ _ _ E1 G Ex) as (G1 & _).
+  pose proof (G1 _ _ _ Iv) as Ev.
+  assert (Ey1 : rd s1 y = Some (ran, dy)) by (eapply ext_rd; [exact E1 | exact Ey | intros []]).
+  rewrite (do_lincomb1_clean _ _ _ _ _ _ _ W1 Ev Ey1).
+  eexists _, _. split; [reflexivity|]. split; [left; reflexivity|].
+  eapply ip_finish; [apply ext_nil_any; exact E1 | exact W1 | exact Ey1 |].
+  rewrite rscal_length. eapply wf_len; eauto.
+Qed.
+
+(* ---------------- OperatorLeftVectorMult ---------------- *)
+Lemma lvec_oop (K : opsemR) dom ran ro F v dv :
+  o_dom K = dom -> vec_ok K ran ro F -> In (v, ran, dv) ro ->
+  raw_oop_vec (fun x => exec_body junk (inst_vec1 dom ran v K) (c_oop cls_OperatorLeftVectorMult) x None)
+    dom ran ro (fun d => rmul dv (F d)).
+Proof.
+  intros Hd (_ & Hoop & _) Iv s x dx W G Ex.
+  unfold cls_OperatorLeftVectorMult, inst_vec1. interp.
+  rewrite <- Hd in Ex.
+  destruct (Hoop s x dx W G Ex) as (r & s1 & Hc & Er & E1 & W1 & Hrx).
+  rewrite Hc.
+  destruct (keep_nil _ _ _ _ _ E1 G Ex) as (G1 & _).
+  pose proof (G1 _ _ _ Iv) as Ev.
+  rewrite (new_mul_clean _ _ _ _ _ _ Er Ev).
+  eexists _, _. split; [reflexivity|].
+  apply fresh_result; auto.
+  rewrite rmul_length; [eapply wf_len; eauto|].
+  rewrite (wf_len _ _ _ _ W1 Er), (wf_len _ _ _ _ W1 Ev). reflexivity.
+Qed.
+
+Lemma lvec_ip (K : opsemR) dom ran ro F v dv :
+  o_dom K = dom -> vec_ok K ran ro F -> In (v, ran, dv) ro ->
+  raw_ip_vec (fun x o => exec_body junk (inst_vec1 dom ran v K) (c_ip cls_OperatorLeftVectorMult) x (Some o))
+    dom ran ro (fun d => rmul dv (F d)).
+Proof.
+  intros Hd (_ & _ & Hip) Iv s x y dx dy W G Ex Ey Nxy Ny.
+  unfold cls_OperatorLeftVectorMult, inst_vec1. interp.
+  rewrite <- Hd in Ex.
+  destruct (Hip s x y dx dy W G Ex Ey Nxy Ny) as (s1 & Hc & Er & E1 & W1).
+  rewrite Hc.
+  assert (G1 : good ro s1) by (eapply good_ext; [exact G | exact E1 | intros i [<-|[]]; exact Ny]).
+  pose proof (G1 _ _ _ Iv) as Ev.
+  rewrite (do_multiply_clean _ _ _ _ _ _ _ _ Ev Er Er).
+  eexists _, _. split; [reflexivity|]. split; [left; reflexivity|].
+  eapply ip_finish; eauto.
+  rewrite rmul_length; [eapply wf_len; eauto|].
+  rewrite (wf_len _ _ _ _ W1 Er), (wf_len _ _ _ _ W1 Ev). reflexivity.
+Qed.
+
+(* ---------------- OperatorRightVectorMult ---------------- *)
+Lemma rvec_oop (K : opsemR) dom ran ro F v dv :
+  o_dom K = dom -> vec_ok K ran ro F -> In (v, dom, dv) ro ->
+  raw_oop_vec (fun x => exec_body junk (inst_vec1 dom ran v K) (c_oop cls_OperatorRightVectorMult) x None)
+    dom ran ro (fun d => F (rmul d dv)).
+Proof.
+  intros Hd (_ & Hoop & _) Iv s x dx W G Ex.
+  unfold cls_OperatorRightVectorMult, inst_vec1. interp.
+  pose proof (G _ _ _ Iv) as Ev.
+  rewrite (new_mul_clean _ _ _ _ _ _ Ex Ev). rewrite rmul_comm.
+  set (t := length s). set (s1 := s ++ [(dom, cl (rmul dx dv))]).
+  assert (W1 : wf_store s1).
+  { apply wf_alloc; [exact W | rewrite cl_length, rmul_length; [eapply wf_len; eauto|]].
+    rewrite (wf_len _ _ _ _ W Ex), (wf_len _ _ _ _ W Ev). reflexivity. }
+  assert (E01 : ext s s1 []) by apply ext_alloc.
+  destruct (keep_nil _ _ _ _ _ E01 G Ex) as (G1 & _).
+  assert (Et1 : rd s1 t = Some (o_dom K, cl (rmul dx dv))) by (rewrite Hd; apply rd_app_new).
+  destruct (Hoop s1 t _ W1 G1 Et1) as (r & s2 & Hc & Er & E2 & W2 & Hr).
+  rewrite Hc.
+  eexists _, _. split; [reflexivity|]. splits; auto.
+  - eapply ext_trans_same; eassumption.
+  - left. exists r. splits; auto. right.
+    pose proof (ext_len _ _ _ E01). destruct Hr as [->|Hr]; unfold t; lia.
+Qed.
+
+Lemma rvec_ip (K : opsemR) dom ran ro F v dv :
+  o_dom K = dom -> vec_ok K ran ro F -> In (v, dom, dv) ro ->
+  raw_ip_vec (fun x o => exec_body junk (inst_vec1 dom ran v K) (c_ip cls_OperatorRightVectorMult) x (Some o))
+    dom ran ro (fun d => F (rmul d dv)).
+Proof.
+  intros Hd (_ & _ & Hip) Iv s x y dx dy W G Ex Ey Nxy Ny.
+  unfold cls_OperatorRightVectorMult, inst_vec1. interp.
+  rewrite alloc_empty_eq. set (t := length s). set (s0 := s ++ [(dom, junkbuf junk t (fst dom))]).
+  assert (Lx : (x < t)%nat) by (eapply rd_lt; exact Ex).
+  assert (Ly : (y < t)%nat) by (eapply rd_lt; exact Ey).
+  pose proof (G _ _ _ Iv) as Ev.
+  assert (Lv : (v < t)%nat) by (eapply rd_lt; exact Ev).
+  assert (Ex0 : rd s0 x = Some (dom, cl dx)) by (unfold s0; rewrite rd_app_old; assumption).
+  assert (Ev0 : rd s0 v = Some (dom, cl dv)) by (unfold s0; rewrite rd_app_old; assumption).
+  pose proof (do_multiply_clean _ _ _ _ _ _ _ _ Ex0 Ev0 (rd_app_new _ _)) as Hm.
+  match goal with
+  | |- context [do_multiply x v ?t' ?s'] =>
+      replace (do_multiply x v t' s') with (Ok tt (upd s0 t (dom, cl (rmul dx dv)))) by (symmetry; exact Hm)
+  end.
+  clear Hm. unfold s0, t. rewrite upd_app_last. fold t. set (s1 := s ++ [(dom, cl (rmul dx dv))]).
+  assert (W1 : wf_store s1).
+  { apply wf_alloc; [exact W | rewrite cl_length, rmul_length; [eapply wf_len; eauto|]].
+    rewrite (wf_len _ _ _ _ W Ex), (wf_len _ _ _ _ W Ev). reflexivity. }
+  assert (E01 : ext s s1 []) by apply ext_alloc.
+  destruct (keep_nil _ _ _ _ _ E01 G Ex) as (G1 & _).
+  assert (Ey1 : rd s1 y = Some (ran, dy)) by (eapply ext_rd; [exact E01 | exact Ey | intros []]).
+  assert (Et1 : rd s1 t = Some (o_dom K, cl (rmul dx dv))) by (rewrite Hd; apply rd_app_new).
+  destruct (Hip s1 t y _ dy W1 G1 Et1 Ey1 ltac:(lia) Ny) as (s2 & Hc & Er & E2 & W2).
+  rw_call Hc.
+  eexists _, _. split; [reflexivity|]. split; [left; reflexivity|]. splits; auto.
+  eapply ext_trans_same; [apply ext_nil_any; exact E01 | exact E2].
 Qed.
 End Classes.
